@@ -26,11 +26,13 @@ func init() {
 			Rules: map[string]string{"C16-R1": "records only under mu", "C16-R2": "Refresh: upload what was reset, remerge iff failed",
 				"C16-R3": "remerge: insert or add counts", "C16-R4": "Record: new=1, existing+1, metadata from arguments",
 				"C16-R6": "resetRecords hands out the old map and installs a fresh one on every path; recordToProtobuf copies count, device, country, ASN, protocol and time unchanged",
+				"C16-R8": "wiring: the recorder installed for the request path is the one the refresh worker flushes; that worker flushes once more on shutdown and is registered with the signal handler",
 				"C16-R5": "uploader: nil result only if every record was sent and the stream closed cleanly (error kinds nil / io.EOF / other tracked through wrapping, Join and errors.Is)"},
 		}})
 }
 
 func runC16(c *an.Ctx) {
+	c16Wiring(c)
 	// ---- R7: every query attributed to a profile is recorded for billing, whatever its logging settings
 	c.Floor("C16-R7", 1)
 	c.Borrow("C16-R7", runC15, func(o an.Obligation) bool { return o.Rule == "C15-R1" && strings.Contains(o.Key, "recordQueryInfo") })
@@ -354,4 +356,98 @@ func c16Upload(c *an.Ctx) {
 			return ""
 		},
 	})
+}
+
+// c16Wiring checks the construction of the billing pipeline in the builder:
+// what is held when the process is told to stop is uploaded, not dropped.
+func c16Wiring(c *an.Ctx) {
+	c.Floor("C16-R8", 3)
+	const k = "cmd.(*builder).initBillStat"
+	fn := c.Fn(k)
+	if fn == nil {
+		c.Und("C16-R8", k, token.NoPos, "anchor not found")
+		return
+	}
+	c.Analysed(k)
+	// the recorder built here
+	var recorder ssa.Value
+	for _, call := range an.CallsTo(fn, "billstat.NewRuntimeRecorder") {
+		recorder = call.Value()
+	}
+	if recorder == nil {
+		c.Und("C16-R8", k+" recorder", fn.Pos(), "the runtime recorder's construction was not found")
+		return
+	}
+	same := func(v ssa.Value) bool { return an.Unwrap(v) == recorder }
+	// it is what the request path records into
+	installed := false
+	var onShutdown, refresher ssa.Value
+	var cfg ssa.Value
+	an.Instrs(fn, func(in ssa.Instruction) {
+		st, ok := in.(*ssa.Store)
+		if !ok {
+			return
+		}
+		typ, f, base, ok := an.FieldOf(st.Addr)
+		if !ok {
+			return
+		}
+		switch {
+		case typ == "cmd.builder" && f == "billStat" && same(st.Val):
+			installed = true
+		case typ == "agdservice.RefreshWorkerConfig" && f == "Refresher" && same(st.Val):
+			refresher, cfg = st.Val, base
+		}
+	})
+	an.Instrs(fn, func(in ssa.Instruction) {
+		if st, ok := in.(*ssa.Store); ok {
+			if typ, f, base, ok := an.FieldOf(st.Addr); ok && typ == "agdservice.RefreshWorkerConfig" && f == "RefreshOnShutdown" && base == cfg {
+				onShutdown = st.Val
+			}
+		}
+	})
+	c.Check(installed && refresher != nil, "C16-R8", k+" one recorder", fn.Pos(),
+		"the recorder given to the request path is the one the refresh worker uploads from",
+		"the recorder installed for the request path is not the one the refresh worker flushes: recorded queries are never uploaded")
+	isTrue := false
+	if cst, ok := onShutdown.(*ssa.Const); ok && cst.Value != nil && cst.Value.String() == "true" {
+		isTrue = true
+	}
+	c.Check(isTrue, "C16-R8", k+" flush on shutdown", fn.Pos(),
+		"the billing refresh worker uploads once more when the process is told to stop",
+		"the billing refresh worker does not flush on shutdown: everything recorded since the last periodic upload (and everything re-merged after a failed one) is dropped with the process")
+	// the worker is started and registered with the signal handler
+	var worker ssa.Value
+	for _, call := range an.CallsTo(fn, "agdservice.NewRefreshWorker") {
+		if len(call.Common().Args) == 1 && call.Common().Args[0] == cfg {
+			worker = call.Value()
+		}
+	}
+	added := false
+	for _, call := range an.Calls(fn) {
+		if strings.HasSuffix(an.CalleeName(call), "SignalHandler).Add") || strings.HasSuffix(an.CalleeName(call), ".Add") {
+			for _, a := range call.Common().Args {
+				if worker != nil && an.Unwrap(a) == worker {
+					added = true
+				}
+				// variadic arguments: the elements stored into the argument array
+				if sl, ok := a.(*ssa.Slice); ok {
+					if al, ok := sl.X.(*ssa.Alloc); ok && al.Referrers() != nil {
+						for _, r := range *al.Referrers() {
+							if ia, ok := r.(*ssa.IndexAddr); ok && ia.Referrers() != nil {
+								for _, rr := range *ia.Referrers() {
+									if st, ok := rr.(*ssa.Store); ok && worker != nil && an.Unwrap(st.Val) == worker {
+										added = true
+									}
+								}
+							}
+						}
+					}
+				}
+			}
+		}
+	}
+	c.Check(added, "C16-R8", k+" registered for shutdown", fn.Pos(),
+		"the worker is handed to the signal handler, which shuts it down (and thereby flushes) on termination",
+		"the billing refresh worker is not registered with the signal handler: nothing flushes the held counts on termination")
 }
